@@ -101,6 +101,12 @@ impl<'a, H> PacketBuffer<'a, H> {
                 // ring buffer.
                 return Err(Full);
             } else {
+                // The padding record takes a metadata slot of its own. Make sure the packet
+                // itself still gets one, or we would leave a stray padding record behind
+                // while refusing the packet.
+                if self.metadata_ring.window() < 2 {
+                    return Err(Full);
+                }
                 // Add padding to the end of the ring buffer so that the
                 // contiguous window is at the beginning of the ring buffer.
                 *self.metadata_ring.enqueue_one()? = PacketMetadata::padding(contig_window);
@@ -152,6 +158,12 @@ impl<'a, H> PacketBuffer<'a, H> {
                 // ring buffer.
                 return Err(Full);
             } else {
+                // The padding record takes a metadata slot of its own. Make sure the packet
+                // itself still gets one, or we would leave a stray padding record behind
+                // while refusing the packet.
+                if self.metadata_ring.window() < 2 {
+                    return Err(Full);
+                }
                 // Add padding to the end of the ring buffer so that the
                 // contiguous window is at the beginning of the ring buffer.
                 *self.metadata_ring.enqueue_one()? = PacketMetadata::padding(contig_window);
